@@ -9,6 +9,10 @@
      clock    clock.Now() inside ensureWindowIsUpdated: the limiter's mutex is held; of a
               request (inside TryToIncrement, pc RHave) or of a collection (inside Counter(),
               its n-th reading, pc CWork)
+     gap      verifhook.Yield("limit.state_obtained") in RateLimitState.TryToIncrement, between
+              getLimiterState and the limiter's TryToIncrement (patches/C09/
+              hook-limit-state-obtained.patch; the harness uses it only when the tree has it):
+              the request holds the pointer and no mutex                        (pc RHave)
    A goroutine held in the clock keeps its limiter; its region is executed on the machine
    when it is released, with the reading it took when it was parked.  After every operation
    all threads run until each is finished, parked, or waiting for a mutex; the order in which
@@ -36,8 +40,10 @@ Inductive oop :=
 Record rov := {
   v_started : bool;
   v_parkH : bool;          (* still to be parked in the hasher *)
+  v_parkG : bool;          (* still to be parked between getLimiterState and the limiter *)
   v_parkC : bool;          (* still to be parked in its clock reading *)
-  v_at : Z;                (* 0 running / waiting, 1 parked in the hasher, 2 parked in the clock *)
+  v_at : Z;                (* 0 running / waiting, 1 parked in the hasher, 2 parked in the clock,
+                              4 parked in the gap *)
   v_read : Z               (* the reading taken when it was parked in the clock *)
 }.
 
@@ -111,14 +117,18 @@ Definition adv_req (o : ov) (r : nat) (v : rov) : option ov :=
     | Some RLook =>
         (* the hasher is only called for a grouped remedy *)
         if v_parkH v && req_grouped (o_cfg o) r then
-          Some (set_rov o r {| v_started := true; v_parkH := false; v_parkC := v_parkC v;
-                               v_at := 1; v_read := 0 |})
+          Some (set_rov o r {| v_started := true; v_parkH := false; v_parkG := v_parkG v;
+                               v_parkC := v_parkC v; v_at := 1; v_read := 0 |})
         else machine_step o (lbl r (o_clock o) 0)
     | Some (RHave p) =>
-        if is_held o p then None
+        if v_parkG v then
+          (* the yield point right after getLimiterState: no mutex is held *)
+          Some (set_rov o r {| v_started := true; v_parkH := false; v_parkG := false;
+                               v_parkC := v_parkC v; v_at := 4; v_read := 0 |})
+        else if is_held o p then None
         else if v_parkC v then
-          Some (set_rov o r {| v_started := true; v_parkH := false; v_parkC := false;
-                               v_at := 2; v_read := o_clock o |})
+          Some (set_rov o r {| v_started := true; v_parkH := false; v_parkG := false;
+                               v_parkC := false; v_at := 2; v_read := o_clock o |})
         else machine_step o (lbl r (o_clock o) 0)
     | _ => None
     end.
@@ -142,7 +152,15 @@ Definition adv_col (o : ov) (j : nat) (w : cov) : option ov :=
         | None => None
         | Some pick =>
             let n := S (w_reads w) in
-            if existsb (Nat.eqb n) (w_parks w) then
+            if match nth_error todo pick with
+               | Some (_, p) => wW (swd (nth p (c_heap (o_cfg o)) init)) =? 0
+               | None => false
+               end
+            then
+              (* a registered state without window data: Counter() returns its counter before
+                 it reads the clock -- no reading, nowhere to park *)
+              machine_step o (lbl i (o_clock o) pick)
+            else if existsb (Nat.eqb n) (w_parks w) then
               Some (set_cov o j {| w_started := true; w_parks := w_parks w; w_reads := n;
                                    w_parked := true; w_pick := pick; w_read := o_clock o |})
             else
@@ -185,15 +203,16 @@ Definition do_op (o : ov) (op : oop) : option ov :=
       match nth_error (o_rs o) r with
       | Some v => if v_started v then None
                   else Some (set_rov o r {| v_started := true; v_parkH := v_parkH v;
+                                            v_parkG := v_parkG v;
                                             v_parkC := v_parkC v; v_at := 0; v_read := 0 |})
       | None => None
       end
   | ORelease r =>
       match nth_error (o_rs o) r with
       | Some v =>
-          let v' := {| v_started := true; v_parkH := v_parkH v; v_parkC := v_parkC v;
-                       v_at := 0; v_read := 0 |} in
-          if v_at v =? 1 then Some (set_rov o r v')
+          let v' := {| v_started := true; v_parkH := v_parkH v; v_parkG := v_parkG v;
+                       v_parkC := v_parkC v; v_at := 0; v_read := 0 |} in
+          if (v_at v =? 1) || (v_at v =? 4) then Some (set_rov o r v')
           else if v_at v =? 2 then
             option_map (fun o' => set_rov o' r v') (machine_step o (lbl r (v_read v) 0))
           else None
@@ -221,7 +240,7 @@ Definition do_op (o : ov) (op : oop) : option ov :=
   end.
 
 (* what the harness sees of a thread: -1 not started, 0 waiting for a mutex, 1 parked in the
-   hasher, 2 parked in a clock reading, 3 finished *)
+   hasher, 2 parked in a clock reading, 3 finished, 4 parked in the gap *)
 Fixpoint req_status (c : config) (rs : list rov) (r : nat) : list Z :=
   match rs with
   | [] => []
@@ -271,9 +290,9 @@ Fixpoint run_ops (o : ov) (ops : list oop) : option (ov * list (list Z)) :=
    (the float64 steps of the ratio are then evaluated once per pair) *)
 Definition okey_t := (nat * list (str * str))%type.
 Definition mk_okey (i : nat) (hs : list (str * str)) : okey_t := (i, hs).
-(* request: index into the pairs, park in the hasher, park in the clock *)
-Definition oreq_t := (nat * bool * bool)%type.
-Definition mk_oreq (i : nat) (ph pc : bool) : oreq_t := (i, ph, pc).
+(* request: index into the pairs, park in the hasher, park in the gap, park in the clock *)
+Definition oreq_t := (nat * bool * bool * bool)%type.
+Definition mk_oreq (i : nat) (ph pg pc : bool) : oreq_t := (i, ph, pg, pc).
 (* observed counters of one collection: (remedy_name, group_id, value) *)
 Definition ocnt_t := (str * str * Z)%type.
 Definition mk_ocnt (l g : str) (n : Z) : ocnt_t := (l, g, n).
@@ -307,7 +326,7 @@ Fixpoint build_threads (kt : list (option (thread * remedy))) (reqs : list oreq_
   : option (list thread) :=
   match reqs with
   | [] => Some []
-  | (i, _, _) :: rest =>
+  | (i, _, _, _) :: rest =>
       match nth_error kt i, build_threads kt rest with
       | Some (Some (t, _)), Some ts => Some (t :: ts)
       | _, _ => None
@@ -321,7 +340,7 @@ Fixpoint verdicts_of (c : config) (kt : list (option (thread * remedy))) (reqs :
          (r : nat) : list Z :=
   match reqs with
   | [] => []
-  | (i, _, _) :: rest =>
+  | (i, _, _, _) :: rest =>
       (match req_pc c r, nth_error kt i with
        | Some (RDone v), Some (Some (_, rm)) =>
            match v with
@@ -369,9 +388,9 @@ Definition run_overlap (k : case_overlap) : option overlap_out :=
       let ts := reqs ++ map (fun _ => TCol CNew) (ov_cols k) in
       let o0 := {| o_cfg := init_config ts; o_clock := ov_base k;
                    o_rs := map (fun q : oreq_t =>
-                                  let '(_, ph, pc) := q in
-                                  {| v_started := false; v_parkH := ph; v_parkC := pc;
-                                     v_at := 0; v_read := 0 |}) (ov_reqs k);
+                                  let '(_, ph, pg, pc) := q in
+                                  {| v_started := false; v_parkH := ph; v_parkG := pg;
+                                     v_parkC := pc; v_at := 0; v_read := 0 |}) (ov_reqs k);
                    o_cs := map (fun ps => {| w_started := false; w_parks := ps; w_reads := 0;
                                              w_parked := false; w_pick := 0; w_read := 0 |})
                                (ov_cols k) |} in
